@@ -221,6 +221,14 @@ func installHook() {
 func runSession(t *tlog, o sessionOpts, rng *rand.Rand) (stats map[string]int, err error) {
 	stats = map[string]int{}
 	ls := script(o.lines, rng, o.tracking)
+	if o.end == "backlog" && len(ls) > 50 {
+		// server PINGs at and around the position where the receive queue (32 lines) is exactly full behind the held handler
+		var pings []tline
+		for k := 0; k < 12; k++ {
+			pings = append(pings, tline{raw: fmt.Sprintf("PING :srv-token-%d", k), verb: "PING"})
+		}
+		ls = append(ls[:30:30], append(pings, ls[30:]...)...)
+	}
 	if o.end == "eof" {
 		// a server announces the end of the link before it closes it
 		ls = append(ls, tline{raw: "ERROR :Closing Link: me2[client.host] (Quit: bye)", verb: "ERROR"})
@@ -461,6 +469,32 @@ func runSession(t *tlog, o sessionOpts, rng *rand.Rand) (stats map[string]int, e
 			t.add(event{Ev: "nodisc"})
 			stats["nodisc"]++
 		}
+	case "temperr":
+		// a transient read error in the middle of a line: whatever the client makes of it (this one treats every
+		// read error as the end of the connection), it must not go on with a line missing or a fragment delivered
+		p := len(stream) / 2
+		for p < len(stream)-1 && (stream[p-1] == '\n' || stream[p-1] == '\r' || stream[p] == '\r') {
+			p++
+		}
+		s.Srv.Send(stream[:p])
+		s.Srv.TempError()
+		s.Srv.Send(stream[p:])
+		select {
+		case <-discSeen:
+		case <-time.After(3 * time.Second):
+			// the connection is still up: then every line must have arrived
+			s.Sync(10 * time.Second)
+			gmu.Lock()
+			if maxSeen != len(ls)-1 || gapped {
+				t.add(event{Ev: "lost", K: maxSeen})
+			}
+			gmu.Unlock()
+			go s.C.Close()
+			select {
+			case <-discSeen:
+			case <-time.After(5 * time.Second):
+			}
+		}
 	case "reconnect":
 		s.Srv.SendStream(stream, cuts)
 		if gateK != 0 {
@@ -559,6 +593,9 @@ func RunPhases(args []string) int {
 		}
 		if i%16 == 5 {
 			o.end, o.misbe, o.tracking = "reconnect", false, true
+		}
+		if i%16 == 1 {
+			o.end, o.misbe = "temperr", false
 		}
 		if i%16 == 13 {
 			// well over a hundred background handler invocations that never return
